@@ -372,12 +372,20 @@ def gen_reloc(seed, idbase=0, nops=150, width=16384, nkeys=5, name="reloc", kt="
     for i in range(nops):
         r = rng.random()
         k = rng.choice(allk)
+        if r < 0.90 and rng.random() < 0.3:
+            s.op("includes", h=1, k=k)          # the key about to be updated was looked up just before
         if r < 0.62:
             s.op("put", h=1, k=k, v=rng.choice(vids))
         elif r < 0.90:
             s.op("del", h=1, k=k)
-        else:
+        elif r < 0.95:
             s.op("get", h=1, k=rng.choice(allk))
+            continue
+        else:
+            # lookups that a cache might remember, and a traversal of the relinked chains
+            s.op("includes", h=1, k=rng.choice(allk))
+            if rng.random() < 0.5:
+                s.op("iter", h=1, flavour=rng.choice(FLAVOURS))
             continue
         if snap:
             # C03: flush only (no decode, which would flush as well), then the directory as a crash would leave it
@@ -492,15 +500,32 @@ def gen_reopen(seed, idbase=0, nops=300, nkeys=40, nb=("BucketsSize", 64), kt="b
     okeys = _mk_keys(s, rng, kt, 5)
     s.op("map", h=1, db=0, name=mname, kt=kt, params={"buckets": list(nb)})
     close_at = sorted(rng.sample(range(5, nops), closes))
+    hs = [1]
+
+    def second_handle():
+        # the same map asked for a second time in the same database (plain, with other parameters, or through
+        # a clone of the database handle): it must alias the first one, updates go through both until the close
+        how = rng.random()
+        if how < 0.4:
+            s.op("map", h=3, db=0, name=mname, kt=kt, params=rng.choice(REOPEN_PARAMS))
+        elif how < 0.7:
+            s.op("map", h=3, db=0, name=mname, kt=kt)
+        else:
+            s.op("clone_db", db=1, **{"from": 0})
+            s.op("map", h=3, db=1, name=mname, kt=kt, params=rng.choice(REOPEN_PARAMS))
+        return [1, 3]
+
     for i in range(nops):
         r = rng.random()
         k = rng.choice(keys)
+        if i == 12 and seed % 2 == 0:
+            hs = second_handle()
         if r < 0.5:
-            s.op("put", h=1, k=k, v=rng.choice(vids))
+            s.op("put", h=rng.choice(hs), k=k, v=rng.choice(vids))
         elif r < 0.75:
-            s.op("del", h=1, k=k)
+            s.op("del", h=rng.choice(hs), k=k)
         elif r < 0.88:
-            s.op("get", h=1, k=k)
+            s.op("get", h=rng.choice(hs), k=k)
         elif r < 0.94:
             s.op(rng.choice(["flush", "sync_all", "sync_data", "db_sync_all", "db_sync_data"]), **({"h": 1} if True else {}))
             if s.ops[-1]["op"].startswith("db_"):
@@ -536,6 +561,7 @@ def gen_reopen(seed, idbase=0, nops=300, nkeys=40, nb=("BucketsSize", 64), kt="b
             s.op("map", h=1, db=0, name=mname, kt=kt, params=rng.choice(REOPEN_PARAMS))
             s.op("dump", h=1, ks=keys)
             s.op("iter", h=1, flavour=rng.choice(FLAVOURS))
+            hs = second_handle() if rng.random() < 0.5 else [1]
     s.op("new_process")
     s.op("decode", dir="d", name=mname, native=True)
     s.op("child_dump", dir="d", name=mname, kt=kt, params=rng.choice(REOPEN_PARAMS), ks=keys)
@@ -580,12 +606,22 @@ def gen_sync(seed, idbase=0, nops=160, nmaps=2, kill=False, name="sync"):
         m = rng.choice(maps)
         r = rng.random()
         k = rng.choice(m["keys"])
+        if i == 20 and seed % 2 == 1 and not kill:
+            # every map is asked for a second time (plain and with parameters): the updates then go through the
+            # NEWER handle or the older one at random; a sync through either (or the database) covers both
+            for mm in maps:
+                if rng.random() < 0.5:
+                    s.op("map", h=mm["h"] + 10, db=0, name=mm["name"], kt=mm["kt"])
+                else:
+                    s.op("map", h=mm["h"] + 10, db=0, name=mm["name"], kt=mm["kt"], params={"buckets": ["BucketsSize", 4]})
+                mm["h2"] = mm["h"] + 10
+        wh = rng.choice([m["h"], m.get("h2", m["h"])])
         if r < 0.55:
-            s.op("put", h=m["h"], k=k, v=rng.choice(vids))
+            s.op("put", h=wh, k=k, v=rng.choice(vids))
         elif r < 0.72:
-            s.op("del", h=m["h"], k=k)
+            s.op("del", h=wh, k=k)
         elif r < 0.80:
-            s.op("get", h=m["h"], k=k)
+            s.op("get", h=wh, k=k)
         else:
             if rng.random() < 0.7:
                 s.op(rng.choice(["flush", "sync_all", "sync_data"]), h=m["h"])
